@@ -34,6 +34,8 @@ def regenerate():
 
 def table_stats():
     src = open(GEN).read()
+    if "Definition section_table" in src:
+        src = src[:src.index("Definition section_table")] + src[src.index("Definition go_statements") - 60:]
     rows = re.findall(r'^\s*\("([^"]*)", "([^"]*)", (true|false), \[(.*?)\]\)', src, re.M)
     gos = re.findall(r'^\s*\("([^"]*)", "([^"]*)"\)[;]?$', src[src.index("go_statements"):], re.M)
     return rows, gos
@@ -87,4 +89,17 @@ def race_hunt(scenarios, timeout=900):
     if n:
         i = err.index("WARNING: DATA RACE")
         first = err[i:i + 3500]
-    return n, (first or p.stdout.decode()[-1500:])
+    return n, (first + ("\n" if first else "") + p.stdout.decode()[-1500:])
+
+
+def failed_theorem(vfile, out):
+    """name of the theorem in theories/Properties/<vfile> at which coqc stopped"""
+    m = re.findall(r'File "[^"]*%s", line (\d+)' % re.escape(vfile), out)
+    if not m:
+        return ""
+    src = open(f"{vf.COQ}/theories/Properties/{vfile}").read().splitlines()
+    for ln in range(min(int(m[0]), len(src)) - 1, -1, -1):
+        t = re.match(r"\s*Theorem\s+(\w+)", src[ln])
+        if t:
+            return t.group(1)
+    return ""
